@@ -82,7 +82,7 @@ def run(tier, v):
 
     # 2. per-alert-name limit: behaviours replayed through the real provider + API
     limits = (1, 2, 3, 4) if thorough else (1, 2, 3)
-    num = 150 if thorough else 12
+    num = 100 if thorough else 12
     results, drift, f4_cases = [], 0, 0
     for n in limits:
         cfgp = cx.derive_cfg(PID, "Gen_Alerts_limit.cfg", "Gen_Alerts_limit_%d.cfg" % n, Limit="= %d" % n, StaleRule="= " + stale, KnownGaps="= " + gaps)
@@ -121,7 +121,7 @@ def run(tier, v):
     #  thorough: both)
     smcs, sgens, sresults = silcommon.run_pipeline(
         PID, tier, v, ["MC_Silences_Limits.cfg", "MC_Silences_life.cfg"] if thorough else ["MC_Silences_Limits.cfg"],
-        sim_num=None if thorough else 25)
+        sim_num=100 if thorough else 25)
     sil_limit_steps = 0
     for name, cfg, gp, lib, g in sgens:
         with open(gp) as f:
@@ -145,7 +145,7 @@ def run(tier, v):
 
     # 4. GET concurrency limiter
     lres = []
-    for k in ((1, 2, 3, 8) if thorough else (1, 2, 3)):
+    for k in ((1, 2, 3, 4) if thorough else (1, 2, 3)):
         cfgp = cx.derive_cfg(PID, "Gen_Limits.cfg", "Gen_Limits_%d.cfg" % k, K="= %d" % k)
         gp, lp = os.path.join(wd, "gen_sem_%d.jsonl" % k), os.path.join(wd, "lib_sem_%d.json" % k)
         g = cx.tlc_gen(PID, "gen_sem_%d" % k, "Gen_Limits", os.path.basename(cfgp), gp, lp, simulate="num=%d" % (200 if thorough else 15),
@@ -185,7 +185,7 @@ def run(tier, v):
         "bounds": "MC alert limit: N = 3, 4 label sets of one name, endsAt in {now-1, now+1, now+4%s}, time 0..%d, GC between instants; with the finding excused (F4Gap) and, "
                   "separately, with the repaired stale rule and nothing excused; Gen: N in %s, 8 label sets under 3 names, batches of 1-3, time 0..16, GC period in {1,2,3,5}; "
                   "silences: MC_Silences_Limits.cfg (count limit 2, oversize comment, time 0..4; thorough also MC_Silences_life.cfg) + 40-op behaviours; limiter: MC K = 2, 4 parked requests; Gen K in {1,2,3%s}" %
-                  (", missing" if thorough else "", 3 if thorough else 2, list(limits), ",8" if thorough else ""),
+                  (", missing" if thorough else "", 3 if thorough else 2, list(limits), ",4" if thorough else ""),
     }
     assumptions = [
         "finding F4 is excused only for the exact state class F4Gap of Alerts.tla, and only while the representative history reproduces on the real code",
